@@ -213,3 +213,11 @@ func (g *cgraph) census(set map[*ssa.Function]bool, kinds map[string]bool) []cen
 
 // isLogPkg: the standard log package or a drop-in replacement (the repository uses github.com/qiniu/x/log).
 func isLogPkg(path string) bool { return path == "log" || strings.HasSuffix(path, "/log") }
+
+// isPkgInit: a package initialiser (init, init#1 …), not a method that happens to be called init.
+func isPkgInit(f *ssa.Function) bool {
+	if f.Signature != nil && f.Signature.Recv() != nil {
+		return false
+	}
+	return f.Name() == "init" || strings.HasPrefix(f.Name(), "init#")
+}
